@@ -550,3 +550,7 @@ Proof.
   destruct (safe_ev_attrs _ _ S Ha) as [tg A].
   exact (url_value_safe_shape _ (attr_safe_url _ _ _ A Hn)).
 Qed.
+
+(* a slug function satisfying the hypothesis on every input (used by the non-vacuity example) *)
+Lemma filter_inert_slug : forall h, forallb inert_byte (filter inert_byte h) = true.
+Proof. intro h. apply forallb_forall. intros x Hx. apply filter_In in Hx. exact (proj2 Hx). Qed.
